@@ -207,3 +207,63 @@ def formula_bprime_pure(ctx):
     ctx.check("numeric_table_unchanged_by_symbolic_calls", bad_state is None,
               clause="breit_wigner.get_bprime_coeff(L) returns the same coefficients after formula.Bprime_polynomial(L, .) was called (the cached table is not mutated)",
               detail=str(bad_state), witness=bad_state)
+
+
+# ---------------------------------------------------------------------------------------------
+# Gounaris-Sakurai (breit_wigner.GS and its helper functions): structure, pole clauses, textbook form of the helpers (log uninterpreted)
+# ---------------------------------------------------------------------------------------------
+def _kallen_k(tf, s, a, b):
+    """break-up momentum at invariant mass squared s (spec, textbook)"""
+    return tf.sqrt((s - (a + b) * (a + b)) * (s - (a - b) * (a - b)) / (4.0 * s))
+
+
+def _mk_gs(L):
+    def g(ctx):
+        tf = ctx.tf
+        bw = ctx.mod("breit_wigner")
+        m, m0, g0, q, q0, d = _inputs(ctx)
+        ma = ctx.real("ma", (1,), s_pos(0.1, 0.2))
+        mb = ctx.real("mb", (1,), s_pos(0.1, 0.2))
+        ctx.require(ma > 0.01)
+        ctx.require(mb > 0.01)
+        ctx.require(m - ma - mb > 0.01, "above the two-pion threshold")
+        ctx.require(m0 - ma - mb > 0.01, "nominal mass above the two-pion threshold")
+        s, s0 = m * m, m0 * m0
+        # --- helpers against their textbook form (pi is the code's own decimal literal: the contract is about the STRUCTURE, A-REAL)
+        PI = 3.14159265359
+        k = bw.twoBodyCMmom(m, ma, mb)
+        ctx.eq("twoBodyCMmom", k, _kallen_k(tf, s, ma, mb), clause="twoBodyCMmom(m, a, b) == sqrt(lambda(m^2, a^2, b^2)) / (2 m) above threshold")
+        rs = tf.sqrt(s)   # the code takes sqrt(s) of the invariant mass squared it is given; for s = m^2, m > 0 this is m
+        ctx.eq("sqrt_s", rs, m, clause="sqrt(m^2) == m for m > 0")
+        ks = bw.twoBodyCMmom(rs, ma, mb)
+        lg = tf.math.log((rs + 2.0 * ks) / (ma + mb))
+        ctx.eq("hFun", bw.hFun(s, ma, mb), (2.0 / PI) * (ks / rs) * lg, clause="h(s) == (2/pi) (k/sqrt s) ln((sqrt s + 2k)/(m_a + m_b))")
+        ctx.eq("dh_dsFun", bw.dh_dsFun(s, ma, mb), bw.hFun(s, ma, mb) * (1.0 / (8.0 * k * k) - 1.0 / (2.0 * s)) + 1.0 / (2.0 * PI * s),
+               clause="h'(s) == h(s) (1/(8 k^2) - 1/(2 s)) + 1/(2 pi s)")
+        # --- f(s): vanishes at the pole mass, so the denominator at m = m0 is purely imaginary
+        ctx.eq("fsFun.at_pole", bw.fsFun(s0, s0, g0, ma, mb), 0.0, clause="f(m0^2) == 0")
+        k0 = bw.twoBodyCMmom(m0, ma, mb)
+        f_spec = g0 * s0 / (k0 * k0 * k0) * (k * k * (bw.hFun(s, ma, mb) - bw.hFun(s0, ma, mb)) + (s0 - s) * k0 * k0 * bw.dh_dsFun(s0, ma, mb))
+        ctx.eq("fsFun", bw.fsFun(s, s0, g0, ma, mb), f_spec, clause="f(s) == Gamma0 m0^2/k0^3 [k^2 (h(s) - h(m0^2)) + (m0^2 - s) k0^2 h'(m0^2)]")
+        # --- GS: D / (m0^2 - m^2 + f(s) - i m0 Gamma(m))
+        ratio = theta2(tf, L, (q0 * d) * (q0 * d)) / theta2(tf, L, (q * d) * (q * d))
+        G = g0 * (q / q0) ** (2 * L + 1) * (m0 / m) * ratio
+        D = 1.0 + bw.dFun(s0, ma, mb) * g0 / m0
+        r = bw.GS(m, m0, g0, q, q0, L, d, c_daug2Mass=ma, c_daug3Mass=mb)
+        den = tf.complex(s0 - s + bw.fsFun(s, s0, g0, ma, mb), -m0 * G)
+        prod = r * den
+        ctx.holds("width_positive", G > 0.0, clause="Gamma(m) > 0 for positive Gamma0, q, q0, m, m0: the denominator m0^2 - m^2 + f - i m0 Gamma never vanishes")
+        ctx.eq("inverse.re", tf.math.real(prod), D, skip_def=True, clause="GS(m) * (m0^2 - m^2 + f(m^2) - i m0 Gamma(m)) == 1 + d(m0) Gamma0/m0 (real part; denominators non-zero by width_positive and k0 > 0)")
+        ctx.eq("inverse.im", tf.math.imag(prod), 0.0, skip_def=True, clause="... (imaginary part == 0)")
+        r0 = bw.GS(m0, m0, g0, q0, q0, L, d, c_daug2Mass=ma, c_daug3Mass=mb)
+        ctx.eq("at_pole.re", tf.math.real(r0), 0.0, clause="Re GS(m0) == 0")
+        ctx.eq("at_pole.im", tf.math.imag(r0) * (m0 * g0), D, clause="Im GS(m0) == (1 + d Gamma0/m0) / (m0 Gamma0)  (the documented i/(m0 Gamma0) up to the GS normalisation constant)")
+
+    return g
+
+
+for _L in (0, 1, 2):
+    group(["C15"], "breit_wigner.GS/L=%d" % _L, ["breit_wigner:GS", "breit_wigner:fsFun", "breit_wigner:hFun", "breit_wigner:dh_dsFun", "breit_wigner:twoBodyCMmom", "breit_wigner:Gamma"],
+          cost=6, no_native=True, tiers=("quick", "thorough") if _L == 1 else ("thorough",),
+          assumes=["pi enters the code as the decimal literal 3.14159265359; the contract uses the same literal (structure of the formula; the numerical value of GS_rho against its "
+                   "documentation is the bounded group iface.lineshape/bw_family)", "log is uninterpreted; d(m0) (dFun) enters only through the normalisation constant D"])(_mk_gs(_L))
